@@ -47,6 +47,9 @@ RULE = (
     "plus every public cluster / sweep / cursor / fold entry point with its degenerate parameter (flip probability 0, tiny, 1/2, 1; empty "
     "ranges; beta = 0; zero steps; cursor borrowed and returned at once; empty manager) and LARGE runs (operator strings of 6000-14000 "
     "operators, pooled vectors far beyond 4096 entries) "
+    "medium-size regimes (34x34 torus = 1156 variables with RVB; cubic 6x6x6 and a 150-spin fully connected model with RVB regions of more "
+    "than 32 / 128 world lines, 60 steps; 8 spins at beta = 200 with an 8000-slot string; at the end every advertised free instance is "
+    "borrowed through Factory and must be blank), "
     "cold starts (first call of each update kind on a fresh sampler), cursor re-use across 2-4 windows through SubvarAccess::Args, all of it on "
     "three allocator configurations (DefaultFastOpAllocator; SwitchableFastOpAllocator wrapping a bounded pool; the wrapper without a pool - "
     "vacuous there, run for panics with a silent hook) "
